@@ -65,6 +65,24 @@ func init() {
 		w := obj.WriteTL2(nil, nil)
 		return "ok " + strconv.Itoa(len(in)-len(rest)) + " " + hx(w)
 	})
+	// rw2d <tid> <name> <dirty hex> <hex>: like rw2, but the destination object has first decoded
+	// <dirty hex> (a reused object): the result must not depend on what the object held before
+	ops["rw2d"] = small(func(f []string) string {
+		obj := newTL2(f[2])
+		if obj == nil {
+			return "driver-error no object " + f[2]
+		}
+		if _, err := obj.ReadTL2(unhex(f[3]), nil); err != nil {
+			return "dirty-err"
+		}
+		in := unhex(f[4])
+		rest, err := obj.ReadTL2(in, nil)
+		if err != nil {
+			return "err"
+		}
+		w := obj.WriteTL2(nil, nil)
+		return "ok " + strconv.Itoa(len(in)-len(rest)) + " " + hx(w)
+	})
 	// idem2 <tid> <name> <hex>: oracle (model-free): b -> read -> w1 -> read (fresh object) -> w2 -> read -> w3;
 	// answers "ok" when w1 == w2 == w3, both re-reads consume exactly their input, and a size
 	// buffer reused across writes gives the same bytes; otherwise what differs
